@@ -56,6 +56,9 @@ TRUSTED[(C, "str.join(' or ', ('{}' for s in correct_plural_forms))")] = 'placeh
 TRUSTED[('lib/check/msgrepr.py', 'template')] = 'placeholder-template'     # built from literals and literal call-site templates
 
 
+PARENTS = {}
+
+
 def coq_str(s):
     return '[' + '; '.join(str(ord(c)) for c in s) + ']%N'
 
@@ -80,6 +83,17 @@ def prov(node, rel):
         return 'PCat [%s; %s]' % (prov(node.left, rel), prov(node.right, rel))
     src = ast.unparse(node)
     kind = TRUSTED.get((rel, src))
+    if kind == 'regex-guarded-lowercase-words':
+        # trusted only under the literal guard  if re.fullmatch(r'[a-z]+( [a-z]+)*', message):
+        p = PARENTS.get(node)
+        guarded = False
+        while p is not None:
+            if isinstance(p, ast.If) and ast.unparse(p.test) == "re.fullmatch('[a-z]+( [a-z]+)*', %s)" % src:
+                guarded = True
+                break
+            p = PARENTS.get(p)
+        if not guarded:
+            kind = None
     if kind is not None:
         return 'PTrusted %s' % coq_str(kind)
     return 'PTainted %s' % coq_str(src)
@@ -96,6 +110,9 @@ def main(emit):
     for rel in FILES:
         path = os.path.join(REPO, rel)
         tree = ast.parse(open(path, encoding='utf-8').read())
+        for par in ast.walk(tree):
+            for ch in ast.iter_child_nodes(par):
+                PARENTS[ch] = par
         for node in ast.walk(tree):
             if not isinstance(node, ast.Call):
                 continue
